@@ -54,6 +54,13 @@ def templates(tier, seed=0):
     # items are evaluated (and spreads copied) left to right: a later sibling that mutates the spread operand comes too late
     ts.append({'name': 'spread-then-mutate', 'src': 'xs := [@h10@, 2]\nfn bump() {\n    xs[0] = @h11@\n    return 7\n}\nys := [xs.., bump()]\nprint(ys)\nprint(xs)\nzs := [1]\nfn bump2() {\n    zs[0] = 100\n    return 0\n}\nfn show(a, b) {\n    return a\n}\nprint(show(zs.., bump2()))\no := {"k": 1}\nfn bump3() {\n    o.k = 5\n    return 0\n}\nprint({o.., "z": bump3()})\nprint([bump(), xs..])\n'})
     ts.append({'name': 'concat-empty-fresh', 'src': 'xs := [@h10@, 2, 3]\nys := xs + []\nys[0] = 9\nprint(xs)\nzs := [] + xs\nprint(zs === xs)\nacc := []\nacc = acc + xs\nacc[1:3] = "ab"\nprint(xs)\nes := []\nfs := es + []\nprint(fs === es)\nt := "" + "s"\nprint(t)\n'})
+    # a container stored into one of its own slots (directly, through an alias, nested) is stored as itself, not as a copy
+    selfops = ['xs[0] = xs', 'ys[0] = xs', 'xs[1] = ys', 'xs += [xs]', 'xs[0] = [xs]\nprint(xs[0][0] === ys)', 'xs[0:1] = [xs]', '[xs[0], xs[1]] = [ys, xs]', 'fn put(l, v) {\n    l[1] = v\n}\nput(xs, ys)']
+    obs = ['print(xs === ys)', 'for [i, v] in xs {', '    if v->type() == "list" {', '        print(v === xs)', '        print(v === ys)', '    } else {', '        print(v)', '    }', '}', 'ys[1] = @h12@', 'for [i, v] in xs {', '    if v->type() == "int" {', '        print(v)', '    }', '}']
+    ts.append({'name': 'store-self-list', 'src': '\n'.join(['s := @h0@', 'xs := [@h10@, @h11@]', 'ys := xs'] + ladder('s', selfops) + obs) + '\n', 'assume': lambda v: [v['h0'] >= 0, v['h0'] <= len(selfops)]})
+    oselfops = ['o.k = o', 'p.k = o', 'o["me"] = p', 'o.k = {"in": o}\nprint(o.k.in === p)', '{"k": o.k} = {"k": p}', 'o.k = [o]\nprint(o.k[0] === p)']
+    oobs = ['print(o === p)', 'for [k, v] in o {', '    if v->type() == "object" {', '        print(k)', '        print(v === o)', '        print(v === p)', '    }', '}', 'p.j = @h12@', 'print(o.j)']
+    ts.append({'name': 'store-self-object', 'src': '\n'.join(['s := @h0@', 'o := {"k": @h10@, "j": @h11@}', 'p := o'] + ladder('s', oselfops) + oobs) + '\n', 'assume': lambda v: [v['h0'] >= 0, v['h0'] <= len(oselfops)]})
     # immutable kinds: no operation on a copy is visible through the original
     ts.append({'name': 'immutable', 'src': 'n := @h10@\nm := n\nm += 1\nprint(n)\ns := "ab"\nt := s\nt += "c"\nprint(s)\nprint(t)\nxs := [n, s, true, null]\nys := xs + []\nys[0] = 0\nys[1] = "zz"\nprint(xs)\nfn f(p, q) {\n    p += 1\n    q += "x"\n    return p\n}\nf(n, s)\nprint(n)\nprint(s)\no := {"k": s}\nu := o.k\nu += "!"\nprint(o)\n'})
     # a closure and its definer share the captured container
